@@ -147,7 +147,7 @@ def run(ctx):
     rnd = random.Random(ctx.seed)
     cover = ('AddArg', 'Emit')
     cfgs = dict(q='MCE_t.cfg' if thorough else 'MCE_q.cfg', recv='MCE_recv_t.cfg' if thorough else 'MCE_recv.cfg',
-                out='MCE_out.cfg')
+                out='MCE_out_t.cfg' if thorough else 'MCE_out.cfg')
     with ThreadPoolExecutor(max_workers=3) as ex:
         rs = dict(zip(cfgs, ex.map(lambda c: model_check_in(ctx, 'MCE', c, cover, 'L2=>L1 + generate ' + c), cfgs.values())))
     shapes = {k: sorted(emitted(r), key=canon) for k, r in rs.items()}
